@@ -7,7 +7,8 @@ ID = "C09"
 AREA = "c09"
 LEAN_PROPS = "Litep2pVerif.Props.C09"
 THEOREMS = ["held_not_closed", "idle_closed_at", "idle_run_closed_at", "poll_settles", "ping_no_prolong", "primary_secondary",
-            "inbound_negotiation_holds_connection"]
+            "inbound_negotiation_holds_connection",
+            "half_closed_substream_holds_connection"]
 CONSTS = ["KEEP_ALIVE_TIMEOUT_SECS"]
 CONST_TABLE = [
     ("KEEP_ALIVE_TIMEOUT_SECS", "src/transport/mod.rs",
@@ -29,9 +30,12 @@ MANIFEST = {
             "a poll nothing blocks the clock); ping_no_prolong, primary_secondary, and on the "
             "connection task's side (Model/Conn/Permits.lean: the TcpConnection loop with every strong sender explicit) "
             "inbound_negotiation_holds_connection: the permit is taken when an inbound substream is accepted and stays with it "
-            "through negotiation, delivery and the substream's life, disabling the idle exit. Tie: the REAL TcpConnection::start "
+            "through negotiation, delivery and the substream's life, disabling the idle exit; "
+            "half_closed_substream_holds_connection: shutting down the write half of a held substream (Sink::poll_close / "
+            "AsyncWrite::poll_shutdown) keeps the object and its lifetime permit, which keeps the idle exit disabled across "
+            "every transition until the owner drops the object. Tie: the REAL TcpConnection::start "
             "loop over loopback TCP with remote substreams whose negotiation is stretched across the expiry of every handle "
-            "(tcploop area, checker mode), and "
+            "and with substreams half-closed by the local protocol and read from afterwards (tcploop area, checker mode), and "
             "several real TransportServices (keep-alive Yes/No) sharing real ProtocolSets run under a paused tokio clock "
             "(logical milliseconds) against the model's executable definitions, state compared after every drain (handle "
             "activity, last_activity, timer count, which connections still have a strong sender), plus a property-level "
@@ -46,6 +50,8 @@ MANIFEST = {
     "design_ref": "DESIGN.md §7 C09",
 }
 RULE = ("tcploop: fixed, negotiation-spanning (inbound header-only / stalled outbound across the release of every handle), race "
+        "half-closed held substreams (half_close before/after the release of every handle, read_sub, then dropped / kept / "
+        "remote close), accept-path and small-channel variants, "
         "and seeded random operation sequences on the real TcpConnection loop, observations checked against the permit-aware "
         "model; c09: seeded schedules over 1-3 protocols (keep-alive Yes/No mixes), timeouts 40/100/250 ms, 2 peers with up to two "
         "overlapping connections: establishment, opens by every protocol, command receipt, success/failure answers, "
@@ -57,7 +63,8 @@ TRUSTED_BASE = ["Lean 4.33 kernel", "axioms: propext, Classical.choice, Quot.sou
                 "adapter /repo/src/verif/c09.rs, logical clock hook (crate::verif::logical_now), harness (tokio test-util), verif.py, checks/c09.py",
                 "tokio paused clock: sleep completes exactly at its deadline once time is advanced; mpsc WeakSender::upgrade succeeds iff a strong sender exists",
                 "the connection task's permit rules (tcp/connection.rs handle_yamux_substream: permit at accept; "
-                "handle_negotiated_substream: lifetime permit for keep-alive protocols) are tied to the REAL TcpConnection::start "
+                "handle_negotiated_substream: lifetime permit for keep-alive protocols; tcp/substream.rs: the permit lives in the "
+                "substream object until it is dropped, poll_shutdown does not release it) are tied to the REAL TcpConnection::start "
                 "loop by the tcploop area (adapter /repo/src/verif/tcploop.rs, model Model/Conn/Permits.lean, checks/tcploop.py); "
                 "the c09 adapter still plays the connection task for the logical-time schedules and follows the same rules",
                 "tcploop: quiescence detected through TCP_INFO byte counters and waker flags; select! branch choice sampled"]
